@@ -35,10 +35,83 @@ def gen(rnd, d):
     yield "line", line
 
 
+def tokeniser_in_isolation(v):
+    """all byte strings of length <= L over {-,=,a,n,space,0xC3,0xB1,0xFF} as one-item vectors (and after `--`) through the
+    real tokeniser (tokens hook); TLC compares the produced items with Lex.tla"""
+    import itertools
+    hbin = build_harness()
+    d = run_tlc("MC_Lex", "MC_Lex.cfg", timeout=600)
+    if not d["ok"]:
+        raise SpecError("MC_Lex failed:\n" + d["tail"])
+    # declared shorts: flags v, c ; arguments n, ñ ; long names name, näm
+    df = D.mkdef("lexdef", D.level([D.sw("f1", "-v"), D.rf("f2", "count", "-c"), D.ar("a1", "opt", "os", "-n", "--name"),
+                                   D.ar("a2", "many", "os", "-%C3%B1", "--n%C3%A4m")], D.postail(D.pos("p0", "many", vt="os"))), maxlen=1)
+    dpath = os.path.join(WORK, f"C02-{v.tier}-lexdef.json")
+    json.dump(df, open(dpath, "w"))
+    alphabet = [45, 61, 97, 110, 118, 32, 195, 177, 255]
+    L = 4 if v.tier == "quick" else 5
+    apath = os.path.join(WORK, f"C02-{v.tier}-argvs.ndjson")
+    n = 0
+    with open(apath, "w") as w:
+        for k in range(0, L + 1):
+            for t in itertools.product(alphabet, repeat=k):
+                w.write(json.dumps([list(t)]) + "\n")
+                n += 1
+                if k <= 2:
+                    w.write(json.dumps([[45, 45], list(t)]) + "\n")
+                    w.write(json.dumps([[45, 110], list(t), [45, 118]]) + "\n")
+                    n += 2
+    trace = os.path.join(WORK, f"C02-{v.tier}-lextrace.ndjson")
+    r = subprocess.run([hbin, "tokens", "--def", dpath, "--argvs", apath, "--out", trace], text=True, capture_output=True, timeout=3600)
+    if r.returncode != 0:
+        raise ToolError("harness tokens failed: " + r.stderr[-2000:])
+    # a value is a value: the glued spelling yields a `word` right after an adjacent short/long, `=` an `argword`
+    norm = trace + ".norm"
+    with open(norm, "w") as w:
+        for rec in read_ndjson(trace):
+            toks = rec["toks"]
+            for i in range(1, len(toks)):
+                if toks[i]["k"] == "word" and toks[i - 1]["k"] in ("short", "long") and toks[i - 1]["adj"]:
+                    toks[i] = {"k": "argword", "v": toks[i]["v"]}
+            w.write(json.dumps(rec) + "\n")
+    trace = norm
+    t = run_tlc("LexTrace", "LexTrace.cfg", env={"TRACE": trace}, workers=1,
+                extra_java="-Xss1g -Dtlc2.tool.queue.IStateQueue=StateDeque", timeout=3600)
+    import re
+    recs = None
+    for l in open(t["out"], errors="replace"):
+        m = re.search(r'<<"REJECT", (\d+), (".*")>>\s*$', l)
+        if m:
+            if recs is None:
+                recs = list(read_ndjson(trace))
+            rec = recs[int(m.group(1)) - 1]
+            exp = json.loads(json.loads(m.group(2)))
+            argv = rec["argv"]
+            glued_not_text = any(len(a) > 2 and a[0] == 45 and a[1] != 45 and 61 not in a and 255 in a for a in argv) or \
+                any(len(a) > 2 and a[0] == 45 and a[1] != 45 and 61 not in a and not _is_utf8(bytes(a[1:])) for a in argv)
+            cluster_eq = any(len(a) > 3 and a[0] == 45 and a[1] in (118, 99) and a[2] != 61 and 61 in a[3:] for a in argv)
+            sig = {"rule": ["short_option_glued_value_not_utf8"]} if glued_not_text and not cluster_eq else \
+                {"rule": ["cluster_attached_value_contains_equals"]} if cluster_eq and not glued_not_text else \
+                {"rule": "tokeniser_differs_from_lex", "first_bytes": argv[0][:2] if argv else []}
+            v.report(sig, {"argv_bytes_int": argv, "expect_tokens": exp, "got_tokens": rec["toks"], "amb": rec["amb"]})
+    if not t["ok"]:
+        raise ToolError("LexTrace did not complete:\n" + t["tail"])
+    return {"tokeniser_vectors_validated": n, "lex_design_states": d["distinct"]}
+
+
+def _is_utf8(b):
+    try:
+        b.decode("utf-8")
+        return True
+    except UnicodeDecodeError:
+        return False
+
+
 def run(v):
     big = D.spell_family(SEED + 1020, 56, maxlen=2, budget=10**9, vals=D.HOSTILE)
     cov = run_cmdline_property(v, families(v.tier), "MC_CmdLine_respell.cfg", signature=sig,
                                driver={"defs": big, "n": 10000 if v.tier == "quick" else 200000, "maxlen": 6, "mutate": 0.3})
+    cov.update(tokeniser_in_isolation(v))
     cov["rule"] = ("one argument x names {1-byte, 2-byte short; ASCII, non-ASCII long; aliases} x 5 spellings x hostile values "
                    "(empty, `=`, `a=b`, blanks, leading dashes, non-ASCII, non-UTF-8, 300 bytes) x targets {String, OsString, "
                    "PathBuf, u32} x adjacent-restricted or not, alone / among flags (clusters of 2..3) / with a positional; all "
